@@ -332,6 +332,15 @@ func swGenVal(r *Rng, cutoff uint64, exact bool, margin uint64) ([]byte, string)
 		if cutoff == 0 {
 			return swVal(pick(r, []uint64{0, 1}), 1, nil), "young"
 		}
+		if r.Chance(15) {
+			// a marker written with header extension blocks (header_extra_padding_block, or another writer): 32 or 40
+			// bytes, still a marker
+			ts := cutoff - margin - 2
+			if exact {
+				ts = cutoff - 1
+			}
+			return mkStored(ts, 7, 1, 1+r.Intn(2), nil), "expired"
+		}
 		if exact {
 			return swVal(pick(r, []uint64{cutoff - 1, cutoff - 1, cutoff - 1, 0, 1}), 1, nil), "expired"
 		}
@@ -340,7 +349,7 @@ func swGenVal(r *Rng, cutoff uint64, exact bool, margin uint64) ([]byte, string)
 		if exact {
 			return swVal(cutoff-1, byte(1+2*r.Intn(100)), []byte("x")), "expired" // odd flag byte with a value
 		}
-		return swVal(cutoff-margin-3, 1, []byte("x")), "expired"
+		return swVal(cutoff-margin-3, byte(1+2*r.Intn(100)), pick(r, [][]byte{[]byte("x"), nil})), "expired" // other (local) flag bits set
 	default:
 		switch r.Intn(3) {
 		case 0:
@@ -460,6 +469,10 @@ func swOracle(in swOracleIn, out *AreaOut) {
 				fail("only-expired", fmt.Sprintf("dbi %q key %x removed but it was not an expired marker (value %x, cutoff in [%d,%d])", d0.Name, p.K, p.V, in.CutLo, in.CutHi))
 			case present && sel && marker && below && in.EndedOK:
 				fail("complete", fmt.Sprintf("dbi %q key %x: expired marker (value %x, cutoff >= %d) untouched by the application survived a pass that ended normally", d0.Name, p.K, p.V, in.CutLo))
+				if len(p.V) > 24 {
+					// C14: a value with header extension blocks (or with a value after the header) is read by its header
+					out.Oracle = append(out.Oracle, OracleFailure{"C14", "extension-blocks-read", fmt.Sprintf("dbi %q key %x: the stored value %x (%d bytes: header with %d extension block(s)) is a deletion marker older than the cutoff; the sweeper did not take it for one", d0.Name, p.K, p.V, len(p.V), int(p.V[22])<<8|int(p.V[23])), in.Describe})
+				}
 			}
 		}
 		for _, p := range d1.Recs {
